@@ -239,6 +239,16 @@ class Interp:
             if isinstance(c.func, ast.Name) and c.func.id in ("float", "int") or (isinstance(c.func, ast.Name) and c.func.id == "to_float"):
                 if not tok.get("number", False) and "number" in tok:
                     raise Outcome("raise:ValueError", f"`{unparse(c)}` on a non-numeric token", n)
+        if isinstance(a, ast.AugAssign) and isinstance(a.target, ast.Name) and a.target.id in m.state_vars:
+            # `state |= flag`: the same as state = state | flag
+            both = ast.copy_location(ast.BinOp(left=ast.copy_location(ast.Name(id=a.target.id, ctx=ast.Load()), a), op=a.op, right=a.value), a)
+            try:
+                v = self.ev(both, n, st, tok)
+            except Unknown as ex:
+                raise AnalysisError(f"{m.fn.qualname}: state update `{unparse(a)}` not understood ({ex})") from None
+            if not isinstance(v, int) or isinstance(v, bool):
+                raise AnalysisError(f"{m.fn.qualname}: state update `{unparse(a)}` is not an integer")
+            st["ints"][a.target.id] = v
         if isinstance(a, (ast.Assign, ast.AnnAssign)):
             targets = a.targets if isinstance(a, ast.Assign) else [a.target]
             for t in targets:
